@@ -2,6 +2,8 @@
 case: ( level pieces module file line target thread mdc )
   level 1..5; pieces: 1..3 strings written one after another by the message's Display;
   module/file/thread: () absent | ( str ); line: () | ( n ); mdc: ( (key value) ... ), keys distinct
+  optional 9th element history = ( n ... ): before the observed encode the same thread encodes a marker
+  record once per entry into a writer that fails after accepting n bytes (0 = the first write fails)
 impl observable: ( output_bytes thread_id ( mdc keys in log_mdc iteration order ) )
 model input: the case with the MDC put in the observed iteration order, plus the time text
   found in the output and the observed thread id (neither is constrained by the property)."""
@@ -18,7 +20,10 @@ RULE = ("sweep: each of the 128 ASCII code points and 24 chosen non-ASCII scalar
         "then random records whose strings are drawn with a bias to quotes, backslashes, the 32 control "
         "characters, DEL, U+2028, astral characters, embedded LF / CRLF, text that looks like JSON or like "
         "escapes (backslash-u-0041, a forged second log line), messages written in 1-3 Display pieces, a "
-        "few multi-kilobyte messages. non-trivial = some string contains a byte that must be escaped "
+        "few multi-kilobyte messages; two-step histories: the same thread first encodes 1-3 marker records "
+        "into a writer that fails at its first write or after 1..400 accepted bytes, then the observed "
+        "record into a good writer (each encode call is one record, one line, whatever failed before). "
+        "non-trivial = some string contains a byte that must be escaped "
         "(quote, backslash, < 0x20); distinct = distinct case line")
 ASSUMPTIONS = [
     "strings reaching the encoder are valid UTF-8 (Rust str); the theorems hold for arbitrary bytes",
@@ -26,6 +31,7 @@ ASSUMPTIONS = [
     "MDC keys are distinct (log_mdc is a HashMap); the MDC is compared in the iteration order the harness observes immediately before the encode call",
     "the time text and the numeric thread id are taken from the run (the property does not constrain them); the time text must still be an RFC 3339 timestamp",
     "unix NEWLINE (one byte 0x0A)",
+    "the encoder is modelled as stateless: histories of failed encodes on the same thread are run on the real crate only and must not change the observed output",
 ]
 TRUSTED = ["Python's json module (strict mode) as the independent parser of the direct round-trip oracle",
            "serde_json 1.0.151's escaping table and compact formatter, read from its source and modelled in Model/Json.v"]
@@ -81,9 +87,15 @@ def rmdc(rng, n):
     return [(k, rstr(rng, 0, 6)) for k in keys]
 
 
+def with_history(case, hist):
+    return list(case) + [list(hist)]
+
+
 def corpus():
     return [
         mk(),
+        with_history(mk(3, ["second"], mdc=[("k", "v")]), [0]),
+        with_history(mk(2, ["second"], thread="w"), [17, 0, 300]),
         mk(1, ['a"b\\c\n\x01\x7f'], line=7, mdc=[('k"', "\r\n"), ("", "\u2028")]),
         mk(2, ["x" + INJECT], module="m::n", file="src/a.rs", line=0, thread="main"),
         mk(5, ["", "\n", ""], thread=""),
@@ -126,6 +138,11 @@ def cases(rng, tier):
                       target=rstr(rng, 0, 6),
                       thread=rstr(rng, 0, 6, nul=False) if rng.chance(2, 3) else None,
                       mdc=rmdc(rng, rng.below(5))))
+    # 3b. histories of failed encodes on the same thread before the observed one
+    for i in range(300 if not thorough else 3000):
+        hist = [rng.choice([0, 0, 1, 2, 8, 9, 10, rng.below(60), rng.below(400)]) for _ in range(rng.range(1, 3))]
+        base = out[rng.below(len(out))] if rng.chance(1, 2) else mk(rng.range(1, 5), [rstr(rng, 0, 8)], mdc=rmdc(rng, rng.below(3)))
+        out.append(with_history(base[:8], hist))
     # 4. a few long messages (several fragments inside serde_json's run batching)
     for _ in range(10 if not thorough else 100):
         out.append(mk(rng.range(1, 5), ["".join(rstr(rng, 3, 8) for _ in range(rng.range(50, 400)))],
@@ -138,7 +155,7 @@ def _b(x):
 
 
 def _texts(c):
-    lvl, pieces, mo, fi, li, tgt, th, mdc = c
+    lvl, pieces, mo, fi, li, tgt, th, mdc = c[:8]
     ts = list(pieces) + list(mo) + list(fi) + [tgt] + list(th)
     for k, v in mdc:
         ts += [k, v]
@@ -150,19 +167,22 @@ def nontrivial(c):
 
 
 def classify(c):
-    lvl, pieces, mo, fi, li, tgt, th, mdc = c
-    return "opt=%d%d%d%d mdc=%d" % (len(mo), len(fi), len(li), len(th), len(mdc))
+    lvl, pieces, mo, fi, li, tgt, th, mdc = c[:8]
+    return "opt=%d%d%d%d mdc=%d%s" % (len(mo), len(fi), len(li), len(th), len(mdc),
+                                      " after-failed-encodes" if len(c) > 8 else "")
 
 
 def describe(c):
-    lvl, pieces, mo, fi, li, tgt, th, mdc = c
+    lvl, pieces, mo, fi, li, tgt, th, mdc = c[:8]
+    hist = list(c[8]) if len(c) > 8 else []
 
     def s(x):
         return _b(x).decode("utf-8", "replace")
     return {"level": LEVELS.get(lvl, lvl), "message_pieces": [s(p) for p in pieces],
             "module_path": s(mo[0]) if mo else None, "file": s(fi[0]) if fi else None,
             "line": li[0] if li else None, "target": s(tgt), "thread": s(th[0]) if th else None,
-            "mdc": [[s(k), s(v)] for k, v in mdc]}
+            "mdc": [[s(k), s(v)] for k, v in mdc],
+            "failed_encodes_before_on_same_thread (bytes accepted before the writer fails)": hist}
 
 
 def model_lines(ctx, cases_, lines, impl_lines):
@@ -195,7 +215,7 @@ def _pairs(ps):
 
 def direct_oracle(c, out, tid):
     """the property itself, with Python's json as the independent parser"""
-    lvl, pieces, mo, fi, li, tgt, th, mdc = c
+    lvl, pieces, mo, fi, li, tgt, th, mdc = c[:8]
     if not out.endswith(b"\n"):
         return "output does not end with a newline"
     if out.count(b"\n") != 1:
